@@ -11,7 +11,11 @@ import (
 )
 
 // C11: registration and lookup normalise identically.
-// case: (c11 strict enc (prefix ...) reg decoded escaped)
+// case: (c11 strict enc (prefix ...) reg decoded escaped [dyn] [cache])
+//   dyn  : registered as reg + "/{id}", requested as the path + "/7"
+//   tail : (with dyn) requested as the path + "/7/"
+//   cache: the router has its route cache switched on, the canonical spelling is requested first (so that a dynamic route is
+//          already cached when the spelling under test arrives) and every lookup is made twice; all of them must agree
 // obs : ((path P) (match t|f) (serve t|f)) | (panic)
 
 var c11Alpha = []string{"/", "/", "/", " ", "\t", ".", "a", "b", "%2F", "%20", " ", "a/b", "//"}
@@ -69,6 +73,12 @@ func c11Gen(r *Rng, tier string, i int) Sx {
 	if r.Chance(1, 5) && !strings.ContainsAny(reg+raw+strings.Join(prefixes, ""), "{}[]") {
 		// the same for a DYNAMIC route: registered as reg + "/{id}", requested as the path + "/7"
 		c.List = append(c.List, A("dyn"))
+		if r.Chance(1, 3) { // ... and as the path + "/7/": the trailing slash of a dynamic request
+			c.List = append(c.List, A("tail"))
+		}
+	}
+	if r.Chance(1, 4) {
+		c.List = append(c.List, A("cache"))
 	}
 	return c
 }
@@ -109,8 +119,24 @@ func c11Exec(c Sx) (obs Sx) {
 	if strings.ContainsAny(reg+strings.Join(prefixes, ""), "{}[]") {
 		panic("c11: dynamic pattern characters are outside this property's cases")
 	}
-	if len(xs) > 7 && xs[7].Atom == "dyn" {
+	dyn, cache, tail := false, false, false
+	for _, t := range xs[7:] {
+		switch t.Atom {
+		case "dyn":
+			dyn = true
+		case "cache":
+			cache = true
+		case "tail":
+			tail = true
+		default:
+			panic("c11: unknown flavour " + t.String())
+		}
+	}
+	if dyn {
 		reg, dec, esc = reg+"/{id}", dec+"/7", esc+"/7"
+		if tail {
+			dec, esc = dec+"/", esc+"/"
+		}
 	}
 	u := &url.URL{Path: dec, RawPath: esc}
 	if u.EscapedPath() != esc {
@@ -131,6 +157,13 @@ func c11Exec(c Sx) (obs Sx) {
 	}
 	if enc {
 		opts = append(opts, rux.UseEncodedPath)
+	}
+	if cache {
+		if len(c.String())%3 == 0 {
+			opts = append(opts, rux.CachingWithNum(2))
+		} else {
+			opts = append(opts, rux.EnableCaching)
+		}
 	}
 	r := rux.New(opts...)
 	var rt *rux.Route
@@ -154,23 +187,55 @@ func c11Exec(c Sx) (obs Sx) {
 		r.Group(prefixes[i], func() { nest(i + 1) })
 	}
 	nest(0)
-	got, _, _ := r.Match("GET", dec)
+	if cache {
+		// the canonical spelling of an instance of the route first: a dynamic route is then in the cache under its normal form
+		r.Match("GET", strings.Replace(rt.Path(), "{id}", "7", 1))
+	}
+	// a cached match is a copy of the route: it is the registered route when it carries its path, name and handler
+	same := func(g *rux.Route, ps rux.Params) bool {
+		if g == nil {
+			return false
+		}
+		if g != rt && !(cache && dyn && g.Path() == rt.Path() && g.Name() == rt.Name() && g.HandlerName() == rt.HandlerName()) {
+			return false
+		}
+		return !dyn || (len(ps) == 1 && ps["id"] == "7")
+	}
+	g1, ps1, _ := r.Match("GET", dec)
+	got := same(g1, ps1)
 	// a HEAD lookup of a GET-only route goes through the same normalisation (HEAD falls back to GET)
-	gotHead, _, _ := r.Match("HEAD", dec)
+	g2, ps2, _ := r.Match("HEAD", dec)
+	gotHead := same(g2, ps2)
+	if (g1 != nil) != got || (g2 != nil) != gotHead {
+		// the only route of the router was found, but as something else than itself with id = 7
+		return L(L(A("path"), S(rt.Path())), L(A("match"), A("another-route-or-params")), L(A("serve"), A("f")))
+	}
 	// RequestURI is what the client sent (here: absolute-form, with a query); the router must go by URL, not by RequestURI
 	req := &http.Request{Method: "GET", URL: u, Header: http.Header{}, Proto: "HTTP/1.1", ProtoMajor: 1, ProtoMinor: 1,
 		RequestURI: "http://h.example/other/" + esc + "?x=1"}
 	w := httptest.NewRecorder()
 	r.ServeHTTP(w, req)
-	if (got == rt) != (gotHead == rt) {
+	if cache {
+		g3, ps3, _ := r.Match("GET", dec)
+		g4, ps4, _ := r.Match("HEAD", dec)
+		w2 := httptest.NewRecorder()
+		r.ServeHTTP(w2, req)
+		if same(g3, ps3) != got || (g3 != nil) != got || same(g4, ps4) != gotHead || (g4 != nil) != gotHead || w2.Code != w.Code {
+			return L(L(A("path"), S(rt.Path())), L(A("match"), A("repeat-differs")), L(A("serve"), B(w.Code == 200)))
+		}
+	}
+	if got != gotHead {
 		return L(L(A("path"), S(rt.Path())), L(A("match"), A("head-lookup-differs")), L(A("serve"), B(w.Code == 200)))
 	}
-	return L(L(A("path"), S(rt.Path())), L(A("match"), B(got == rt)), L(A("serve"), B(w.Code == 200)))
+	return L(L(A("path"), S(rt.Path())), L(A("match"), B(got)), L(A("serve"), B(w.Code == 200)))
 }
 
 func c11Classify(c, obs Sx) []string {
 	xs := c.Lst()
 	labs := []string{"strict=" + xs[1].Atom, "enc=" + xs[2].Atom, fmt.Sprintf("groups=%d", len(xs[3].Lst()))}
+	for _, t := range xs[7:] {
+		labs = append(labs, "flavour="+t.Atom)
+	}
 	if obs.IsL && len(obs.List) == 3 {
 		m, s := obs.List[1].List[1].Atom, obs.List[2].List[1].Atom
 		labs = append(labs, "match="+m, "serve="+s)
@@ -207,6 +272,16 @@ func c11Exhaustive(emit func(Sx)) {
 			emit(c11Mk(strict, false, nil, s, s))
 			emit(c11Mk(strict, false, nil, "/a", s))
 			emit(c11Mk(strict, false, []string{"a"}, s, "/a/"+s))
+			if len(s) <= 3 { // a dynamic route under every short spelling, cold and from the route cache, with and without "/" after the value
+				for _, fl := range [][]string{{"dyn"}, {"dyn", "tail"}, {"dyn", "cache"}, {"dyn", "tail", "cache"}} {
+					for _, c := range []Sx{c11Mk(strict, false, nil, s, s), c11Mk(strict, false, nil, "/a", s)} {
+						for _, f := range fl {
+							c.List = append(c.List, A(f))
+						}
+						emit(c)
+					}
+				}
+			}
 		}
 	}
 }
